@@ -488,6 +488,33 @@ Section Handler.
     (forall s ks, batch_get s ks = seq_gets s ks) /\
     (forall s ps, batch_set s ps = seq_sets s ps).
 
+  (* ---------------------------------------------------------------- two clients, one backend (C05) *)
+  (* Two connections A (who = true) and B (who = false) over the same backend; their commands
+     interleave at command boundaries (each step is one whole frame handed to the command layer of
+     one of the two connections). *)
+  Record sys := mkSys {
+    sst : St;
+    txa : txstate; txb : txstate;
+    outa : list resp; outb : list resp
+  }.
+  Definition step2 (y : sys) (who : bool) (v : resp) : sys :=
+    if who then
+      let c := handle_frame (mkCore (sst y) (txa y) (outa y)) v in
+      mkSys (st c) (txs c) (txb y) (outp c) (outb y)
+    else
+      let c := handle_frame (mkCore (sst y) (txb y) (outb y)) v in
+      mkSys (st c) (txa y) (txs c) (outa y) (outp c).
+  Definition run2 (y : sys) (sched : list (bool * resp)) : sys :=
+    fold_left (fun y p => step2 y (fst p) (snd p)) sched y.
+  (* the commands of client A in a schedule, in order *)
+  Definition a_cmds (sched : list (bool * resp)) : list cmd :=
+    flat_map (fun p : bool * resp =>
+                if fst p then match decode_cmd (snd p) with inl c => [c] | inr _ => [] end else []) sched.
+  (* the kinds of command that MULTI queues *)
+  Definition queueable (k : ckind) : Prop := k = KPlain \/ k = KUnwatch \/ k = KStubOther.
+  (* the reply GET k gets in backend state s *)
+  Definition get_reply (s : St) (k : bytes) : resp := snd (exec s (cmd_get k)).
+
   (* a stream of well-formed frames (possibly with an unfinished frame at the end) *)
   Definition wf_stream (stream : bytes) : Prop :=
     exists rest, snd (decode_stream true stream) = TMore rest.
